@@ -16,7 +16,7 @@ from vf.trees import Tree
 # the server of this check advertises a port other than the gopher default, so that
 # "defaults to the port of the current server" is distinguishable from "70"
 HOST, PORT = driver.SERVER_NAME.encode(), 7071
-TYPES = "0179hgIs4569T8"
+TYPES = "0179hgIs4569T8i"
 WORDS = [b"About", b"News", b"Files", b"caf\xc3\xa9", b"R\xe9sum\xe9", b"Old stuff", b"a & b", b"<tag>", b"x=y", b"Q?",
          # characters that some line splitters (str.splitlines) treat as line ends; a gophermap line ends at LF only
          b"form\x0cfeed", b"vt\x0btab", b"fs\x1csep", b"nel\xc2\x85next", b"ls\xe2\x80\xa8sep", b"cr\rmid"]
@@ -37,9 +37,7 @@ def gophermap_ref(text: bytes, dirsel: bytes, relative_ok: bool = True) -> typin
         f = ln.split(b"\t")
         typ = chr(f[0][0])
         desc = f[0][1:]
-        if typ == "i":
-            out.append(("i", desc, None, None, None))
-            continue
+        # (a tab line of type 'i' is a tab line like any other: its fields follow the same rules)
         sel = f[1] if len(f) > 1 and f[1] else desc
         if not sel.startswith(b"/") and not sel.startswith(b"URL:"):
             sel = base + b"/" + sel
@@ -102,6 +100,19 @@ def to_class(t: tuple) -> tuple:
     return ("remote", name, ("gopher", host, port, typ.encode(), sel))
 
 
+def observed(parsed, want) -> typing.List[tuple]:
+    """Menu lines as 5-tuples; for informational text (a line without a tab in the map) the filler fields the
+    server puts after the text are not specified and are left out of the comparison."""
+    out = []
+    for k, d in enumerate(parsed):
+        w = want[k] if k < len(want) else None
+        if d["type"] == "i" and (w is None or w[2] is None):
+            out.append(("i", d["name"], None, None, None))
+        else:
+            out.append((d["type"], d["name"], d["selector"], d["host"], d["port"]))
+    return out
+
+
 def run_case(chk: Check, sc: Scratch, idx: int) -> None:
     rng = chk.subrng("case", idx)
     depth = rng.choice([b"", b"d1", b"d1/d2", b"d1/d2/d3", b"site.gophermap", b"d1/old.gophermap"])
@@ -143,12 +154,7 @@ def run_case(chk: Check, sc: Scratch, idx: int) -> None:
             chk.witness("C09/listing-failed:gopher", dict(sample, reply=resp.data[:300], log=resp.log[:3], reason=v.reason,
                                                          escaped=resp.escaped[:1]))
             return
-        got = []
-        for d in v.parsed:
-            if d["type"] == "i":
-                got.append(("i", d["name"], None, None, None))
-            else:
-                got.append((d["type"], d["name"], d["selector"], d["host"], d["port"]))
+        got = observed(v.parsed, want)
         if got != want:
             i = next((k for k, (a, b) in enumerate(zip(got, want)) if a != b), min(len(got), len(want)))
             if i >= min(len(got), len(want)):
@@ -195,9 +201,7 @@ def run_case(chk: Check, sc: Scratch, idx: int) -> None:
                 zgot = []
                 if zv.ok and zv.klass in ("menu", "any"):
                     try:
-                        for d in parsers.parse_gopher_menu(zresp.data):
-                            zgot.append(("i", d["name"], None, None, None) if d["type"] == "i" else
-                                        (d["type"], d["name"], d["selector"], d["host"], d["port"]))
+                        zgot = observed(parsers.parse_gopher_menu(zresp.data), zwant)
                     except parsers.Malformed:
                         zgot = None
                 if zgot != zwant:
@@ -225,8 +229,7 @@ def run_case(chk: Check, sc: Scratch, idx: int) -> None:
         want2 = gophermap_ref(text2, sel)
         got2 = []
         if v2.ok and v2.klass == "menu":
-            for d in v2.parsed:
-                got2.append(("i", d["name"], None, None, None) if d["type"] == "i" else (d["type"], d["name"], d["selector"], d["host"], d["port"]))
+            got2 = observed(v2.parsed, want2)
         if got2 != want2:
             chk.witness("C09/listing-does-not-follow-edited-gophermap", dict(sample, edited_to=text2[:300], got=got2[:3], want=want2[:3],
                                                                               stale=(got2 == want)))
